@@ -848,8 +848,9 @@ class LazyBase64Engine(Base64Engine):
         if not attr.startswith("_"):
             # NOTE: a second thread arriving during initialization waits here, and then finds
             #       the options gone (class switched) instead of initializing a second time.
+            #       (instance dict is checked directly, the class may have been switched meanwhile.)
             with object.__getattribute__(self, "_lazy_lock"):
-                if self._lazy_opts is not None:
+                if object.__getattribute__(self, "__dict__").get("_lazy_opts") is not None:
                     self._lazy_init()
         return object.__getattribute__(self, attr)
 
